@@ -116,7 +116,7 @@ class Prob:
         self.N = t.nat(); self.nx = t.nat(); self.nu = t.nat(); self.nh = t.nat()
         self.nhN = t.nat(); self.nc = t.nat(); self.ncN = t.nat()
         names = ['A', 'B', 'Cb', 'e', 'Hm', 'HN', 'w', 'g', 'd', 'wN', 'gN', 'Cc', 'cq', 'ce', 'CcN',
-                 'cqN', 'Dlb', 'Dub', 'DNlb', 'DNub']
+                 'cqN', 'Dlb', 'Dub', 'DNlb', 'DNub', 'dA', 'dB', 'dHm', 'dw', 'dCc']
         for n in names:
             setattr(self, n, t.vec())
 
@@ -127,10 +127,11 @@ class Prob:
     def cost(self, xinit, u, mu, y, maj=False, trace=None):
         """u: list of N lists of nu numbers (Fraction or Dual).  Returns (V, xs, hs, cs)."""
         N, nx, nu, nh, nhN, nc, ncN = self.N, self.nx, self.nu, self.nh, self.nhN, self.nc, self.ncN
-        A, B, Cb, e = self.F('A', maj), self.F('B', maj), self.F('Cb', maj), self.F('e', maj)
-        Hm, HN = self.F('Hm', maj), self.F('HN', maj)
-        w, g, d, wN, gN = (self.F(k, maj) for k in ('w', 'g', 'd', 'wN', 'gN'))
-        Cc, cq, ce, CcN, cqN = (self.F(k, maj) for k in ('Cc', 'cq', 'ce', 'CcN', 'cqN'))
+        A0, B0, Cb, e = self.F('A', maj), self.F('B', maj), self.F('Cb', maj), self.F('e', maj)
+        Hm0, HN = self.F('Hm', maj), self.F('HN', maj)
+        w0, g, d, wN, gN = (self.F(k, maj) for k in ('w', 'g', 'd', 'wN', 'gN'))
+        Cc0, cq, ce, CcN, cqN = (self.F(k, maj) for k in ('Cc', 'cq', 'ce', 'CcN', 'cqN'))
+        dA, dB, dHm, dw, dCc = (self.F(k, maj) for k in ('dA', 'dB', 'dHm', 'dw', 'dCc'))
         ab = (lambda z: abs(Fr(z))) if maj else (lambda z: Fr(z))
         mu = [Fr(m) for m in mu]
         y = [ab(a) for a in y]
@@ -164,6 +165,12 @@ class Prob:
             return half * s
 
         for t in range(N):
+            # time-varying coefficients of stage t
+            A = [a + t * b for a, b in zip(A0, dA)]
+            B = [a + t * b for a, b in zip(B0, dB)]
+            Hm = [a + t * b for a, b in zip(Hm0, dHm)]
+            w = [a + t * b for a, b in zip(w0, dw)]
+            Cc = [a + t * b for a, b in zip(Cc0, dCc)]
             xs.append(x)
             ut = u[t]
             xu = list(x) + list(ut)
@@ -326,8 +333,20 @@ def gen_problem(rng, exact, dims=None):
     y = [r(0.3) for _ in range(m)]
     xinit = [r(0.2) for _ in range(nx)]
     u = [r(0.2) for _ in range(N * nu)]
+    # stage dependence of every coefficient family (never all zero: a wrong stage index must show)
+    def nz(v, gen):
+        if v and all(a == 0 for a in v):
+            v[rng.randrange(len(v))] = gen()
+        return v
+    one = (lambda: rng.choice([-1.0, -0.5, 0.5, 1.0])) if exact else (lambda: rng.gauss(0, 1) or 1.0)
+    dA = nz([r(0.6) for _ in range(nx * nx)], one)
+    dB = nz([r(0.6) for _ in range(nx * nu)], one)
+    dHm = nz([r(0.6) for _ in range(nh * (nx + nu))], one)
+    dw = nz([rng.choice([0.0, 0.5, 1.0]) if exact else abs(rng.gauss(0, 0.5)) for _ in range(nl)],
+            lambda: 0.5)
+    dCc = nz([r(0.6) for _ in range(nc * nx)], one)
     head = f'{N} {nx} {nu} {nh} {nhN} {nc} {ncN}'
-    vs = [A, B, Cb, e, Hm, HN, w, g, d, wN, gN, Cc, cq, ce, CcN, cqN, Dlb, Dub, DNlb, DNub]
+    vs = [A, B, Cb, e, Hm, HN, w, g, d, wN, gN, Cc, cq, ce, CcN, cqN, Dlb, Dub, DNlb, DNub, dA, dB, dHm, dw, dCc]
     return head + ' ' + ' '.join(vec2p(v) for v in vs), (mu, y, xinit, u), (N, nx, nu, nh, nhN, nc, ncN)
 
 
@@ -391,7 +410,7 @@ def zetas(p, mu, y, xinit, u):
 
 def prob_line(p):
     vs = [p.A, p.B, p.Cb, p.e, p.Hm, p.HN, p.w, p.g, p.d, p.wN, p.gN, p.Cc, p.cq, p.ce, p.CcN, p.cqN,
-          p.Dlb, p.Dub, p.DNlb, p.DNub]
+          p.Dlb, p.Dub, p.DNlb, p.DNub, p.dA, p.dB, p.dHm, p.dw, p.dCc]
     return f'{p.N} {p.nx} {p.nu} {p.nh} {p.nhN} {p.nc} {p.ncN} ' + ' '.join(vec2p(v) for v in vs)
 
 
@@ -815,10 +834,14 @@ def nontrivial(op, out):
 
 # ------------------------------------------------------------------------------ Riccati (extra stage)
 
-def fsolve(M, rhs):
-    """exact Gauss-Jordan over Fractions; returns None if singular."""
+def fsolve(M, rhs, want_cond=False):
+    """exact Gauss-Jordan over Fractions; returns None if singular.  With want_cond also the exact
+    ∞-norm condition number ‖M‖∞·‖M⁻¹‖∞ (the inverse is carried along as extra right-hand sides)."""
     n = len(M)
-    a = [list(M[i]) + [rhs[i]] for i in range(n)]
+    if want_cond:
+        a = [list(M[i]) + [rhs[i]] + [Fr(int(i == j)) for j in range(n)] for i in range(n)]
+    else:
+        a = [list(M[i]) + [rhs[i]] for i in range(n)]
     for c in range(n):
         p = next((r for r in range(c, n) if a[r][c] != 0), None)
         if p is None:
@@ -829,8 +852,19 @@ def fsolve(M, rhs):
         for r in range(n):
             if r != c and a[r][c] != 0:
                 f = a[r][c]
-                a[r] = [z - f * w for z, w in zip(a[r], a[c])]
-    return [a[i][n] for i in range(n)]
+                a[r] = [z - f * w if w else z for z, w in zip(a[r], a[c])]
+    sol = [a[i][n] for i in range(n)]
+    if not want_cond:
+        return sol
+    nM = max([sum(abs(z) for z in row) for row in M] + [Fr(0)])
+    nI = max([sum(abs(z) for z in a[i][n + 1:]) for i in range(n)] + [Fr(0)])
+    return sol, float(nM * nI) if n else 1.0
+
+
+GN_EPS = 2.0 ** -40      # the Gauss-Newton QP data are themselves assembled in binary64
+RIC_EPS = 2.0 ** -44     # relative rounding budget per unit of condition number (binary64: 2^-53)
+COND_MAX = 1e10          # `well-conditioned data` of the property's quantifier, decided on exact rationals
+KKT_COND = [1.0]     # exact ∞-norm condition number of the dense KKT matrix of the latest kkt_step
 
 
 def kkt_step(N, nx, nu, stages, QN, qN):
@@ -903,9 +937,11 @@ def kkt_step(N, nx, nu, stages, QN, qN):
             M[row][xi(N, j2)] += QN[j][j2]
         rhs[row] -= qN[j]
         M[row][li(N - 1, j)] -= 1
-    sol = fsolve(M, rhs)
-    if sol is None:
+    res = fsolve(M, rhs, want_cond=True)
+    if res is None:
         return None
+    sol, cond = res
+    KKT_COND[0] = cond
     du = []
     for t in range(N):
         for k in range(nu):
@@ -1012,6 +1048,8 @@ def riccati_stage(rep, broken, exe, tier):
     worst = 0.0
     model_checked = 0
     masks_seen = set()
+    excl = {'singular_kkt_matrix': 0, 'kkt_cond_above_%g' % COND_MAX: 0}
+    conds = {}
     for i, ((op, (N, nx, nu, stages, QN, qN)), h) in enumerate(zip(cases, hout)):
         if h.startswith('exception'):
             rep.violation(f'riccati: real code threw: {h}', {'op': op}, True)
@@ -1020,11 +1058,17 @@ def riccati_stage(rep, broken, exe, tier):
         du, dxN, rcond = parse_ric_out(h)
         ref = kkt_step(N, nx, nu, stages, QN, qN)
         if ref is None:
+            excl['singular_kkt_matrix'] += 1
             continue
         rdu, rdx = ref
         scale = max([1.0] + [abs(float(a)) for a in rdu + rdx])
-        cond = 1.0 / max(rcond, 1e-12)
-        tol = 2.0 ** -30 * cond * scale * (N + 1)
+        # conditioning from the problem data alone: exact ∞-norm condition number of the dense KKT matrix
+        cond = KKT_COND[0]
+        conds[i] = cond
+        if cond > COND_MAX:
+            excl['kkt_cond_above_%g' % COND_MAX] += 1
+            continue
+        tol = RIC_EPS * cond * scale * (N + 1)
         err_ = max([abs(a - float(b)) for a, b in zip(du, rdu)] + [abs(a - float(b)) for a, b in zip(dxN, rdx)]
                    + [0.0])
         if not all(math.isfinite(a) for a in du):
@@ -1058,8 +1102,11 @@ def riccati_stage(rep, broken, exe, tier):
     if not dout:
         broken.append('driver executable missing (riccati correspondence)')
     if nbad == 0:
-        riccati_sequences(rep, broken, exe, tier, rng, cases, hout, dout)
+        riccati_sequences(rep, broken, exe, tier, rng, cases, hout, dout, conds)
     rep.cov['riccati'] = {'cases': len(cases), 'model_vs_impl': model_checked,
+                          'excluded_by_reason': excl, 'compared_with_exact_kkt': len(cases) - sum(excl.values()),
+                          'tolerance': f'{RIC_EPS:.3g} * cond_inf(KKT matrix, exact rationals) * scale * (N+1)',
+                          'max_kkt_cond': max(conds.values(), default=0.0),
                           'distinct_(nu,mask)': len(masks_seen),
                           'worst_error_over_cond_scale': worst}
     rep.cov['traces_validated_against_impl'] += model_checked
@@ -1067,7 +1114,7 @@ def riccati_stage(rep, broken, exe, tier):
              f'model vs real on {model_checked}')
 
 
-def riccati_sequences(rep, broken, exe, tier, rng, cases, hout, dout):
+def riccati_sequences(rep, broken, exe, tier, rng, cases, hout, dout, conds):
     """ONE StatefulLQRFactor / IndexSet / work_2x / q vector across M cases of equal dimensions (as
     panoc-ocp.tpp keeps them across Gauss-Newton steps).  Every case of a sequence must give (a) the
     bits the same case gives on a fresh object — the pure model's semantics — and (b) the exact
@@ -1132,7 +1179,9 @@ def riccati_sequences(rep, broken, exe, tier, rng, cases, hout, dout):
                 if ref is None:
                     continue
                 scale = max([1.0] + [abs(float(a)) for a in ref[0] + ref[1]])
-                tol = 2.0 ** -30 / max(rcond, 1e-12) * scale * (N + 1)
+                if conds.get(i, COND_MAX + 1) > COND_MAX:
+                    continue                      # counted in riccati.excluded_by_reason for the single case
+                tol = RIC_EPS * conds[i] * scale * (N + 1)
                 e = max([abs(a - float(b)) for a, b in zip(du, ref[0])] + [0.0])
                 me = max([abs(a - b) for a, b in zip(du, mdu)] + [0.0])
                 if not e <= tol:
@@ -1176,7 +1225,14 @@ def gn_reference(p, mu, y, xinit, u, qfix, masks):
             grad.append(muk[i] * ((z - Fr(lb[i])) if lo else (z - Fr(ub[i])) if hi else Fr(0)))
         return act, grad
     stages = []
+    A0, B0, Hm0, w0, Cc0 = A, B, Hm, w, Cc
+    dA, dB, dHm, dw, dCc = F('dA'), F('dB'), F('dHm'), F('dw'), F('dCc')
     for t in range(N):
+        A = [a + t * b for a, b in zip(A0, dA)]
+        B = [a + t * b for a, b in zip(B0, dB)]
+        Hm = [a + t * b for a, b in zip(Hm0, dHm)]
+        w = [a + t * b for a, b in zip(w0, dw)]
+        Cc = [a + t * b for a, b in zip(Cc0, dCc)]
         x, ut = xs[t], U[t]
         xu = list(x) + list(ut)
         At = [[A[i * nx + j] + sum(Cb[(i * nx + j) * nu + k] * ut[k] for k in range(nu)) for j in range(nx)]
@@ -1239,12 +1295,12 @@ def gn_stage(rep, broken, exe, tier):
         # positive weights on the inputs make the reduced input Hessians positive definite
         nl = nh if nh > 0 else nx + nu
         p.w = [float(rng.choice([1, 2, 4])) / 2 for _ in range(nl)]
-        if nh > 0:   # outputs = (x; u) mixed by a unit lower-triangular matrix: full column rank
+        if nh > 0:   # outputs = (x; u) mixed by a unit lower-triangular matrix (at every stage): full column rank
             p.Hm = [1.0 if i == j else (small(rng, 0.5) if j < i else 0.0) for i in range(nh) for j in range(nx + nu)]
-        toks = pline.split()
-        vs = [p.A, p.B, p.Cb, p.e, p.Hm, p.HN, p.w, p.g, p.d, p.wN, p.gN, p.Cc, p.cq, p.ce, p.CcN, p.cqN,
-              p.Dlb, p.Dub, p.DNlb, p.DNub]
-        pline = ' '.join(toks[:7]) + ' ' + ' '.join(vec2p(v) for v in vs)
+            p.dHm = [(small(rng, 0.5) if j < i else 0.0) for i in range(nh) for j in range(nx + nu)]
+            if nh > 1 and all(a == 0 for a in p.dHm):
+                p.dHm[(nx + nu)] = 0.5
+        pline = prob_line(p)
         masks = [rng.choice([0, 2 ** nu - 1, rng.getrandbits(nu), rng.getrandbits(nu)]) for _ in range(N)]
         qfix = [small(rng, 0.2) for _ in range(N * nu)]
         chol = rng.randint(0, 1)
@@ -1258,6 +1314,7 @@ def gn_stage(rep, broken, exe, tier):
         return
     rep.cov['evaluations'] += len(hout)
     checked, worst, nbad = 0, 0.0, 0
+    excl = {'singular_kkt_matrix': 0, 'kkt_cond_above_%g' % COND_MAX: 0}
     for op, h, (mu, y, xinit, u, qfix, masks) in zip(ops, hout, meta):
         if h.startswith('exception'):
             rep.violation(f'gauss-newton step: real code threw: {h}', {'op': op}, True)
@@ -1267,13 +1324,21 @@ def gn_stage(rep, broken, exe, tier):
         t = T(op); t.tok(); t.tok()
         p = Prob(t)
         ref, Vex = gn_reference(p, mu, y, xinit, u, qfix, masks)
-        if ref is None or not rcond > 1e-6:
+        if ref is None:
+            excl['singular_kkt_matrix'] += 1
+            continue
+        cond = KKT_COND[0]
+        if cond > COND_MAX:
+            excl['kkt_cond_above_%g' % COND_MAX] += 1
             continue
         rdu, _ = ref
         scale = max([1.0] + [abs(float(a)) for a in rdu])
-        tol = 2.0 ** -30 / rcond * scale * (p.N + 1)
+        # the QP data themselves are assembled in binary64 from the trajectory: one more factor for them
+        tol = GN_EPS * cond * scale * (p.N + 1)
         e = max([abs(a - float(b)) for a, b in zip(du, rdu)] + [0.0])
-        worst = max(worst, e * rcond / scale)
+        if not all(math.isfinite(a) for a in du):
+            e = INF
+        worst = max(worst, e / (cond * scale))
         checked += 1
         if not e <= tol:
             nbad += 1
@@ -1283,7 +1348,11 @@ def gn_stage(rep, broken, exe, tier):
                           {'op': op, 'impl_out': h}, True)
             if nbad >= 3:
                 break
-    rep.cov['gauss_newton'] = {'cases': len(ops), 'checked': checked, 'worst_error_times_rcond_over_scale': worst}
+    rep.cov['gauss_newton'] = {'cases': len(ops), 'checked': checked, 'excluded_by_reason': excl,
+                               'tolerance': f'{GN_EPS:.3g} * cond_inf(exact GN KKT matrix) * scale * (N+1)',
+                               'worst_error_over_cond_scale': worst}
+    if checked + sum(excl.values()) + nbad < len(ops) and nbad < 3:
+        broken.append(f'gauss-newton stage: {len(ops) - checked - sum(excl.values())} cases neither compared nor counted')
     rep.note(f'gauss-newton pipeline: {checked}/{len(ops)} steps vs exact KKT of the GN QP, worst = {worst:.3g}')
 
 
@@ -1351,7 +1420,7 @@ def replay(r):
             print('reference KKT system singular'); return 0
         e = max([abs(a - float(b)) for a, b in zip(du, ref[0])] + [0.0])
         print(f'exact KKT step: {[float(a) for a in ref[0]]}; max deviation {e:.3g}')
-        return 1 if e > 2.0 ** -30 / max(rcond, 1e-12) * max([1.0] + [abs(float(a)) for a in ref[0]]) * (N + 1) else 0
+        return 1 if e > RIC_EPS * KKT_COND[0] * max([1.0] + [abs(float(a)) for a in ref[0] + ref[1]]) * (N + 1) else 0
     if kind == 'rics':
         # every case of the sequence again on a fresh factor object: must give the same bits
         t = T(op); t.tok()
@@ -1385,7 +1454,7 @@ def replay(r):
             print('reference KKT system singular'); return 0
         e = max([abs(a - float(b)) for a, b in zip(du, ref[0])] + [0.0])
         print(f'exact GN step: {[float(a) for a in ref[0]]}; max deviation {e:.3g}')
-        return 1 if e > 1e-6 * max([1.0] + [abs(float(a)) for a in ref[0]]) else 0
+        return 1 if e > GN_EPS * KKT_COND[0] * max([1.0] + [abs(float(a)) for a in ref[0]]) * (p.N + 1) else 0
     m = monitor(op, out[0], {})
     print('monitor:', m if m else 'quiet')
     return 1 if m else 0
